@@ -97,12 +97,12 @@ func vfC11Run(run *vfkit.Run, cs *vfC11Case) {
 				sn.resume = &ec
 				switch sc.Reply {
 				case "resumed":
-					pc.Send(fmt.Sprintf("<resumed xmlns='%s' previd='%s' h='%d'/>", vfNSSM, e.Attrs["previd"], *lastAcked))
+					pc.Send(fmt.Sprintf("<resumed xmlns='%s' previd='%s' h='%d'/>", vfNSSM, vfAttrEsc(e.Attrs["previd"]), *lastAcked))
 					resumedOK = true
 					sn.done = "resumed"
 					break loop
 				case "resumed-other":
-					pc.Send(fmt.Sprintf("<resumed xmlns='%s' previd='not-%s' h='0'/>", vfNSSM, e.Attrs["previd"]))
+					pc.Send(fmt.Sprintf("<resumed xmlns='%s' previd='not-%s' h='0'/>", vfNSSM, vfAttrEsc(e.Attrs["previd"])))
 				case "failed":
 					pc.Send("<failed xmlns='" + vfNSSM + "'/>")
 				case "failed-cond":
@@ -144,7 +144,11 @@ func vfC11Run(run *vfkit.Run, cs *vfC11Case) {
 					pc.Send(fmt.Sprintf("<enabled xmlns='%s'%s/>", vfNSSM, res))
 				default:
 					sn.enabledId = fmt.Sprintf("id-%d", k)
-					pc.Send(fmt.Sprintf("<enabled xmlns='%s' id='%s'%s/>", vfNSSM, sn.enabledId, res))
+					if k%2 == 0 {
+						// session ids are opaque to the client: a server may well use characters that need escaping
+						sn.enabledId = fmt.Sprintf("i&d'<\">%%s %d", k)
+					}
+					pc.Send(fmt.Sprintf("<enabled xmlns='%s' id='%s'%s/>", vfNSSM, vfAttrEsc(sn.enabledId), res))
 				}
 			case e.Is("", "presence"):
 				break loop // end of a fresh negotiation started by Connect
@@ -273,6 +277,18 @@ func vfC11Run(run *vfkit.Run, cs *vfC11Case) {
 			tag = "conn0"
 		}
 		// --- what the client asked
+		if sn.resume == nil {
+			// a resumption request the peer's XML parser could not read is a request all the same: it does not present
+			// the id that was handed out (ids are opaque strings; the client has to escape them like any attribute)
+			if conns := peer.Conns(); k < len(conns) {
+				if raw := conns[k].ClearBytes(); strings.Contains(raw, "<resume") {
+					i := strings.Index(raw, "<resume")
+					run.Violation("C11/resume-request-unreadable:"+tag, fmt.Sprintf("connection %d: the client wrote %q - not well-formed XML, the id of the last <enabled/> was %q", k, vfClip2(raw[i:], 160), heldId), cs)
+					go c.Disconnect()
+					return
+				}
+			}
+		}
 		if sn.resume != nil {
 			pid, h := sn.resume.Attrs["previd"], sn.resume.Attrs["h"]
 			if pid == "" {
